@@ -24,7 +24,7 @@ func (c05) ID() string { return "C05" }
 func (c05) Meta(tier string) engine.Meta {
 	return engine.Meta{
 		Level: "model_checking",
-		Rule: "UNTYPED enumeration (well- and ill-typed alike) of all terms of depth <= 1 over 12 atoms of 12 types and 30 constructors (operators, overloaded and polymorphic built-ins, subscripts, present / absent members, list / map / object literals incl. duplicate fields), all depth-2 terms with one nested operand (quick: nested operand well-typed; thorough: any), every single-position replacement of a sub-term of the well-typed small-alphabet programs by an atom of every other type, six homogeneity contexts ([x,y], map values, if, ==, union, get) over all pairs of 96 composite operands that repeat variables, a variable of each of 16 types under 23 contexts, and six families of additional user overloads (mono vs poly, two matching polys, undetermined result variable, object-typed mono parameters in both field orders, overloads shadowing built-ins) registered in ALL k! orders (k<=4). Oracle: the reference checker's accept / reject and inferred type against types.Infer on the desugared tree and against Expr.Compile on two back ends; no accepted program may fail with a type error at run time. non-trivial = not a bare atom",
+		Rule: "UNTYPED enumeration (well- and ill-typed alike) of all terms of depth <= 1 over 12 atoms of 12 types and 30 constructors (operators, overloaded and polymorphic built-ins, subscripts, present / absent members, list / map / object literals incl. duplicate fields), all depth-2 terms with one nested operand (quick: nested operand well-typed; thorough: any), every single-position replacement of a sub-term of the well-typed small-alphabet programs by an atom of every other type, six homogeneity contexts ([x,y], map values, if, ==, union, get) over all pairs of 96 composite operands that repeat variables, a variable of each of 16 types under 23 contexts, all pairs of five function-typed variables (num->num twice, num->str, str->num, (num,num)->num) under 8 homogeneity / call contexts, and eight families of additional user overloads (mono vs poly, two matching polys, undetermined result variable, object-typed mono parameters in both field orders also nested in objects / maps / optionals, polys that share type variables, overloads shadowing built-ins) registered in ALL k! orders (k<=4), each written once with separate and once with shared type-variable objects. Oracle: the reference checker's accept / reject and inferred type against types.Infer on the desugared tree and against Expr.Compile on two back ends; no accepted program may fail with a type error at run time. non-trivial = not a bare atom",
 		Bound: "depth 2 with one nested operand; arity <= 3; k <= 4 extra overloads",
 		Assumptions: []string{
 			"⊥ (element type of [] / [:]) equals only itself, matches a bare type variable, and never equals a concrete parameter (README: bottom is only used for empty list / map)",
@@ -132,6 +132,9 @@ type c05Data struct {
 	Term *gen.Term    `json:"term"`
 	Env  real.EnvSpec `json:"env"`
 	Sigs []sigDesc    `json:"sigs,omitempty"` // extra user overloads, in registration order
+	// SharedVars: all signatures are written with one set of type-variable objects
+	SharedVars bool `json:"shared_vars,omitempty"`
+	EnvFuns    bool `json:"env_funs,omitempty"`
 }
 
 func zeroOf(t *gen.Ty) *ref.V {
@@ -150,12 +153,16 @@ func zeroOf(t *gen.Ty) *ref.V {
 
 // customHost builds user overloads whose implementations return the tag-distinguishing zero of
 // their (instantiated) result type; only acceptance and types are judged.
-func customHost(sigs []sigDesc) *real.Host {
+func customHost(sigs []sigDesc, sharedVars bool) *real.Host {
 	tr := []string{}
 	h := &real.Host{Trace: &tr}
+	shared := real.NewVars()
 	for _, s := range sigs {
 		s := s
 		vars := real.NewVars()
+		if sharedVars {
+			vars = shared
+		}
 		ps := make([]*types.Type, len(s.Params))
 		for i, p := range s.Params {
 			ps[i] = real.ToType(p, vars)
@@ -235,6 +242,19 @@ func overloadFamilies() []ovFamily {
 			{"k", []*gen.Ty{gen.List(tyOAB)}, S, "mono-list-ab"},
 		}, []*gen.Term{c("k", oAB), c("k", oBA), c("k2", oAB), c("k2", oBA), c("k", gen.VarT("o")), c("k2", gen.VarT("o")),
 			c("k", gen.ListT(oAB)), c("k", gen.ListT(oBA)), c("k", gen.ListT(oBA, oAB))}},
+		{"object-mono-nested", []sigDesc{
+			{"kn", []*gen.Ty{gen.Obj(gen.F("p", tyOAB), gen.F("id", N))}, N, "mono-nested-ab"},
+			{"kn", []*gen.Ty{gen.Map(S, tyOBA)}, S, "mono-map-ba"},
+			{"kn", []*gen.Ty{gen.Maybe(tyOAB)}, gen.Bool, "mono-maybe-ab"},
+		}, []*gen.Term{c("kn", gen.ObjT([]string{"p", "id"}, oAB, one)), c("kn", gen.ObjT([]string{"p", "id"}, oBA, one)), c("kn", gen.ObjT([]string{"id", "p"}, one, oBA)),
+			c("kn", gen.MapT(str, oAB)), c("kn", gen.MapT(str, oBA)), c("kn", gen.MapT(str, oBA, gen.StrT("z"), oAB)),
+			c("kn", gen.ObjT([]string{"p", "id"}, oAB, str)), c("kn", gen.ListT(oAB))}},
+		{"polys-sharing-variables", []sigDesc{
+			{"pick", []*gen.Ty{a, N}, a, "poly-a-num"},
+			{"pick", []*gen.Ty{gen.List(a), S}, a, "poly-lista-str"},
+			{"pick", []*gen.Ty{a, gen.List(a)}, gen.List(a), "poly-a-lista"},
+		}, []*gen.Term{c("pick", lst, str), c("pick", lst, one), c("pick", one, one), c("pick", str, str), c("pick", one, lst), c("pick", lst, gen.ListT(lst)),
+			gen.Infix("+", c("pick", lst, str), one), c("pick", gen.ListT(str), str), gen.Infix("+", c("pick", gen.ListT(str), str), str)}},
 		{"shadow-builtins", []sigDesc{
 			{"len", []*gen.Ty{S}, S, "user-len-str"},
 			{"len", []*gen.Ty{gen.List(a)}, S, "user-len-list"},
@@ -399,6 +419,26 @@ func (c05) Generate(tier string, yield func(*engine.Case) bool) {
 			emitD("var-of-each-type", v.T.String(), c05Data{Term: c, Env: e})
 		}
 	}
+	// ---- function-typed variables (num->num twice, num->str, str->num, (num,num)->num) under homogeneity contexts
+	{
+		fv := real.StdHost().EnvFuns()
+		names := []string{"f", "g", "gs", "hs", "h2"}
+		var binds []real.Binding
+		for _, n := range names {
+			binds = append(binds, real.Binding{Name: n, V: fv[n]})
+		}
+		fenv := real.EnvSpec{Rep: "raw", Binds: binds}
+		for _, a := range names {
+			for _, b := range names {
+				x, y := gen.VarT(a), gen.VarT(b)
+				for _, t := range []*gen.Term{gen.ListT(x, y), gen.MapT(gen.StrT("p"), x, gen.StrT("q"), y), gen.CallT("if", gen.BoolT(true), x, y),
+					gen.DCallT(gen.SubT(gen.ListT(x, y), gen.NumT(1)), gen.NumT(1)), gen.Infix("+", gen.DCallT(gen.CallT("if", gen.BoolT(false), x, y), gen.NumT(1)), gen.NumT(1)),
+					gen.CallT("get", gen.ListT(x), gen.NumT(0), y), gen.ObjT([]string{"p", "q"}, x, y), gen.DCallT(gen.SubT(gen.ListT(x), gen.NumT(0)), gen.DCallT(gen.SubT(gen.ListT(y), gen.NumT(0)), gen.NumT(1)))} {
+					emitD("function-typed-vars", "", c05Data{Term: t, Env: fenv, EnvFuns: true})
+				}
+			}
+		}
+	}
 	// ---- overload families in all registration orders
 	for _, fam := range overloadFamilies() {
 		for _, perm := range permutations(len(fam.sigs)) {
@@ -410,6 +450,8 @@ func (c05) Generate(tier string, yield func(*engine.Case) bool) {
 			}
 			for _, p := range fam.progs {
 				emitD("overloads-"+fam.name, strings.Join(tags, ">"), c05Data{Term: p, Env: env, Sigs: sigs})
+				// the same registrations written with ONE set of type-variable objects shared by all signatures
+				emitD("overloads-"+fam.name, "sharedvars:"+strings.Join(tags, ">"), c05Data{Term: p, Env: env, Sigs: sigs, SharedVars: true})
 			}
 		}
 		// and every non-empty subset in its listed order
@@ -431,14 +473,18 @@ func (c05) Generate(tier string, yield func(*engine.Case) bool) {
 
 func (c05) Run(c *engine.Case) *engine.Result {
 	var d c05Data
+	real.StdHost().EnvFuns() // function values in case files resolve by tag
 	if err := json.Unmarshal(c.Data, &d); err != nil {
 		panic(err)
 	}
 	var h *real.Host
 	if len(d.Sigs) > 0 {
-		h = customHost(d.Sigs)
+		h = customHost(d.Sigs, d.SharedVars)
 	} else {
 		h = real.StdHost()
+	}
+	if d.EnvFuns {
+		h.EnvFuns()
 	}
 	p := observe(d.Term, d.Env, h, []real.Backend{real.VMSwitch, real.Closure}, true)
 	res := &engine.Result{Execs: p.Execs, NonTrivial: len(d.Term.Args) > 0 || d.Term.Op == "var"}
